@@ -240,6 +240,31 @@ def r9_emit_total(c, facts, rule='C04.R9'):
                         if b['k'] == 'call' and variant_of(b['f']) == 'Some':
                             sv |= vs
                     some_sets[fn.id] = sv
+        if fn.id not in some_sets and 'Option<' in (fn.d.get('sig_output') or '') and 'Schema' in (fn.d.get('sig_output') or ''):
+            # `if let A(_) | B(_) = s.expr { return Some(s); } .. None`: every construction of Some stands under a narrowing of
+            # the variant (an if-let or a match arm); the Some set is the union of what the narrowings leave
+            sv, found = set(), False
+            for e, anc in hir_walk(fn.hir['body']):
+                if e['k'] == 'call' and variant_of(e['f']) == 'Some' and e.get('src') != 'TryDesugar':
+                    allowed = set(allv)
+                    narrowed = False
+                    for parent, lab in anc:
+                        if lab[0] in ('then', 'else') and lab[1]['cond']['k'] == 'let' and 'SchemaExpr' in lab[1]['cond']['init']['ty']:
+                            vs = set(pat_variants(lab[1]['cond']['pat']))
+                            allowed &= vs if lab[0] == 'then' else (set(allv) - vs)
+                            narrowed = True
+                        if lab[0] == 'arm' and 'SchemaExpr' in lab[2]['scrut']['ty']:
+                            for vs, arm in _arm_sets(lab[2], allv):
+                                if arm is lab[1]:
+                                    allowed &= vs
+                                    narrowed = True
+                    if narrowed:
+                        sv |= allowed
+                        found = True
+                    else:
+                        sv |= set(allv)
+            if found:
+                some_sets[fn.id] = sv
     # `pred(&s.expr).then_some(s)`: the Some set is the set of variants on which the (workspace) predicate is true
     from absint import Interp, TRUE
     for fn in facts.fns.values():
@@ -319,6 +344,17 @@ def r9_emit_total(c, facts, rule='C04.R9'):
                 if src and src[0] == 'arm' and src[1]['k'] in ('call', 'mcall') and callee_id(src[1]) in some_sets and 'Some' in pat_variants(src[2]):
                     allowed &= some_sets[callee_id(src[1])]
                     how.append('Some(..) of %s' % facts.fns[callee_id(src[1])].qname.split('::')[-1])
+
+                if src and src[0] == 'cparam':
+                    # `self.maybe_inline(name).map_or_else(.., |s| self.value_schema(s))`: the parameter of a closure handed to an
+                    # Option adaptor on the result of a function with a known Some set
+                    for parent, lab in reversed(src[3]):
+                        if parent['k'] == 'mcall' and parent['name'] in ('map_or_else', 'map_or', 'map', 'and_then', 'is_some_and', 'inspect', 'filter'):
+                            rc = parent['recv']
+                            if rc['k'] in ('call', 'mcall') and callee_id(rc) in some_sets:
+                                allowed &= some_sets[callee_id(rc)]
+                                how.append('closure parameter of %s on %s' % (parent['name'], facts.fns[callee_id(rc)].qname.split('::')[-1]))
+                            break
 
                 def value_set(x, depth=0):
                     """variants the schema denoted by expression x can have (None = unknown)"""
